@@ -29,6 +29,8 @@ for d in sorted(glob.glob('/verif/seeded/C*-*')):
     cl = re.sub(r'\(retest.*', '', cl)
     firstcl = cl.split(';')[0].replace('harness=', '').replace(' clause=', ' / ').strip()
     verdict = firstcl if rc == '1' else ('NOT RUN' if rc == '?' else 'MISSED')
+    if rc != '1' and meta.get('judged'):
+        verdict = 'not reported: ' + meta['judged']
     fr = 'caught' if frc == '1' else ('-' if frc == '?' else 'missed')
     if frc not in ('1', '?'):
         missed += 1
